@@ -13,6 +13,9 @@
 //! * [`Signing`], [`build`] -> [`Built`] – `InMemoryZoneHandler<SimProvider>` filled with
 //!   `upsert_mut`, signed by the real `add_zone_signing_key_mut` + `secure_zone_mut`, wrapped in
 //!   a real `Catalog`; `Built::records` is the full dump including RRSIG / NSEC / NSEC3.
+//! * [`Front`], [`build_front`] – the same zone behind the `SqliteZoneHandler` wrapper (differential front end).
+//! * [`ZoneSpec::upper_cased`] – the same zone with upper-case names (case-insensitivity dimension).
+//! * [`query_bytes_class`], [`ask_raw`] – explicit QCLASS / raw response bytes.
 //! * [`query_bytes`], [`ask`] – wire query -> `vsim::serve` (real `Catalog::handle_request`) -> `Message`.
 //! * [`ref_rr`], [`ref_name`], [`ref_nsec`], [`ref_nsec3`], [`hname`] – conversions between hickory
 //!   records and reference records.
@@ -217,6 +220,22 @@ impl ZoneSpec {
         Some(ZoneSpec { origin: v["origin"].as_str()?.to_string(), owners, extra })
     }
 
+    /// The same zone with the origin, every owner name and every in-zone RDATA name in UPPER case
+    /// (names compare case-insensitively, RFC 1035 2.3.3; the reference model folds case).
+    pub fn upper_cased(&self) -> ZoneSpec {
+        let up_rec = |r: &RecSpec| match r {
+            RecSpec::Ns(t) => RecSpec::Ns(t.to_ascii_uppercase()),
+            RecSpec::Mx(t) => RecSpec::Mx(t.to_ascii_uppercase()),
+            RecSpec::Cname(t) => RecSpec::Cname(t.to_ascii_uppercase()),
+            o => o.clone(),
+        };
+        ZoneSpec {
+            origin: self.origin.to_ascii_uppercase(),
+            owners: self.owners.iter().map(|(o, k)| (o.to_ascii_uppercase(), *k)).collect(),
+            extra: self.extra.iter().map(|(o, r)| (o.to_ascii_uppercase(), up_rec(r))).collect(),
+        }
+    }
+
     /// The flat record list. Owner i (1-based) gets RDATA that identifies it (A 10.0.0.i,
     /// TXT "t<i>") so that a response shows which owner's data it carries.
     pub fn records(&self) -> Vec<(String, RecSpec)> {
@@ -246,7 +265,7 @@ impl ZoneSpec {
                     v.push((o, RecSpec::Ns(glue.clone())));
                     // if the glue name is itself an owner of the spec, that owner's kind decides
                     // what lives there (avoids A-next-to-CNAME conflicts)
-                    if !self.owners.iter().any(|(x, _)| *x == glue) {
+                    if !self.owners.iter().any(|(x, _)| x.eq_ignore_ascii_case(&glue)) {
                         v.push((glue, RecSpec::A(100 + i)));
                     }
                 }
@@ -449,6 +468,21 @@ pub struct Built {
 /// if requested, sign it with the real `add_zone_signing_key_mut` + `secure_zone_mut` at the
 /// current virtual time (`vsim::unix()`).
 pub fn build(spec: &ZoneSpec, signing: &Signing) -> Result<Built, String> {
+    build_front(spec, signing, Front::InMemory)
+}
+
+/// Which zone handler answers the catalog's requests.
+#[derive(Clone, Copy, PartialEq, Eq, Debug)]
+pub enum Front {
+    /// the `InMemoryZoneHandler` itself
+    InMemory,
+    /// the same `InMemoryZoneHandler` wrapped in a `SqliteZoneHandler` (no journal, updates off):
+    /// every lookup / NSEC / NSEC3 request is forwarded, so the answers must be byte-identical
+    Sqlite,
+}
+
+/// As [`build`], with a choice of the front-end zone handler.
+pub fn build_front(spec: &ZoneSpec, signing: &Signing, front: Front) -> Result<Built, String> {
     let origin = hname(&spec.origin);
     let nx = match signing {
         Signing::Unsigned => None,
@@ -479,7 +513,13 @@ pub fn build(spec: &ZoneSpec, signing: &Signing) -> Result<Built, String> {
         }
     }
     let mut catalog = Catalog::new();
-    catalog.upsert(origin.into(), vec![Arc::new(zone)]);
+    match front {
+        Front::InMemory => catalog.upsert(origin.into(), vec![Arc::new(zone)]),
+        Front::Sqlite => {
+            let wrapped = hickory_server::store::sqlite::SqliteZoneHandler::<SimProvider>::new(zone, AxfrPolicy::Deny, false, signing.is_signed());
+            catalog.upsert(origin.into(), vec![Arc::new(wrapped)])
+        }
+    }
     Ok(Built { spec: spec.clone(), signing: signing.clone(), records, catalog })
 }
 
@@ -537,6 +577,30 @@ pub fn query_bytes(qname: &str, qtype: u16, dnssec_ok: bool) -> Vec<u8> {
         m.set_edns(e);
     }
     m.to_vec().unwrap()
+}
+
+/// A standard query with an explicit QCLASS (1 = IN, 3 = CH, 255 = ANY), wire form.
+pub fn query_bytes_class(qname: &str, qtype: u16, qclass: u16, dnssec_ok: bool) -> Vec<u8> {
+    let mut m = Message::new(0x2a2a, MessageType::Query, OpCode::Query);
+    let mut q = Query::new(hname(qname), rtype(qtype));
+    q.query_class = hickory_proto::rr::DNSClass::from(qclass);
+    m.add_query(q);
+    if dnssec_ok {
+        let mut e = Edns::new();
+        e.set_max_payload(4096);
+        e.enable_dnssec();
+        m.set_edns(e);
+    }
+    m.to_vec().unwrap()
+}
+
+/// Wire query -> real `Catalog::handle_request` -> the raw response bytes (exactly one expected).
+pub fn ask_raw(rt: &tokio::runtime::Runtime, catalog: &Catalog, query: &[u8]) -> Result<Vec<u8>, String> {
+    let mut out = rt.block_on(vsim::serve(catalog, query, Protocol::Udp)).ok_or("request did not parse")?;
+    if out.len() != 1 {
+        return Err(format!("{} responses", out.len()));
+    }
+    Ok(out.remove(0))
 }
 
 /// Wire query -> real `Catalog::handle_request` -> decoded response (exactly one expected).
